@@ -279,6 +279,14 @@ func (r *Run) builtin(name string, args []Value, argv []ssa.Value, rtype types.T
 			return Iface{typ: types.Typ[types.String], val: StrVal{t.panic.msg}}
 		}
 		return Iface{}
+	case "Sizeof", "Alignof":
+		if len(argv) == 1 {
+			sz := types.SizesFor("gc", "amd64")
+			if name == "Sizeof" {
+				return tt.Const(BV(64), uint64(sz.Sizeof(argv[0].Type())))
+			}
+			return tt.Const(BV(64), uint64(sz.Alignof(argv[0].Type())))
+		}
 	case "min", "max":
 		a, b := args[0].(*Term), args[1].(*Term)
 		if a.sort.K != SBV {
